@@ -29,7 +29,7 @@ RULE = (
     "Non-trivial: a step where some scheduled operation is not yet completed "
     "and a machine or job node removed before the last step."
 )
-BUDGET = {"quick": 600, "thorough": 2500}
+BUDGET = {"quick": 600, "thorough": 12000}
 ASSUMPTIONS = ["positive durations only (the statement's domain)"]
 
 
